@@ -216,6 +216,13 @@ func (c *Ctx) LookupMethod(rel, typ, name string) *ssa.Function {
 		return nil
 	}
 	if fn := c.MethodOf(n, name); fn != nil {
+		// the name survives but its work moved into another method (finalize -> `for h.finalizeRound() {}`): the rules
+		// about that work follow the role
+		if role, has := handlerRoles[name]; has && n.Obj().Pkg() != nil && strings.HasSuffix(n.Obj().Pkg().Path(), "pkg/protocol") && !role(c, fn) {
+			if alt := c.methodByRole(n, name); alt != nil && alt != fn {
+				return alt
+			}
+		}
 		return fn
 	}
 	// renamed helper of a handler: resolve by role (roles.go)
